@@ -119,6 +119,24 @@ func (tr *FnCtx) assumeEntry(st *State) {
 	for _, cl := range tr.Spec.Requires {
 		tr.assumeRaw(tr.evalClause(env, cl))
 	}
+	tr.entryAssumes = tr.Spec.Assumes
+	if tr.lockModeOf(tr.Spec, tr.Fn) != "none" {
+		tr.applyEntryAssumes(st)
+	}
+}
+
+// applyEntryAssumes: 'assumes' clauses of an entry point are stable facts; for functions that take the
+// lock themselves they are assumed when the lock has been acquired (together with the monitor invariant).
+func (tr *FnCtx) applyEntryAssumes(st *State) {
+	if tr.entryAssumes == nil {
+		return
+	}
+	env := tr.newEnv(st, tr.entry, tr.params)
+	for _, cl := range tr.entryAssumes {
+		tr.assume(tr.evalClause(env, cl))
+		tr.assumesUsed = append(tr.assumesUsed, tr.Short+": assumes ["+cl.Label+"] "+cl.Src)
+	}
+	tr.entryAssumes = nil
 }
 
 func resultNames(fn *ssa.Function) []string {
@@ -212,7 +230,7 @@ func (tr *FnCtx) finish() {
 }
 
 func isOldAddr(x, alloc0 string) string {
-	return "(ite (< " + x + " 0) (< (elemB " + x + ") " + alloc0 + ") (< " + x + " " + alloc0 + "))"
+	return "(isold " + x + " " + alloc0 + ")"
 }
 
 type modEntry struct {
@@ -259,7 +277,7 @@ func (tr *FnCtx) frameObligations() {
 		if me != nil && me.whole {
 			continue
 		}
-		c := Comp{k, tr.comps[k]}
+		c := Comp{k, tr.comps[k], false}
 		old := tr.cur(tr.entry, c)
 		var parts []string
 		trivial := true
@@ -366,7 +384,7 @@ func (tr *FnCtx) seenVars(li *loopInfo, st *State, env map[string]*Val) {
 		if nx, ok := in.(*ssa.Next); ok {
 			if rg, ok := nx.Iter.(*ssa.Range); ok {
 				if c, ok := tr.rangeSeen[rg]; ok {
-					env["$seen"] = &Val{T: nil, A: []string{tr.cur(st, c)}}
+					env["$seen"] = &Val{T: nil, GhostElem: tBool, A: []string{tr.cur(st, c)}}
 				}
 			}
 		}
@@ -453,7 +471,7 @@ func (tr *FnCtx) storeTargets(addr ssa.Value) ([]Comp, bool) {
 				id := sanitize(x.Comment) + "_" + x.Name()
 				var out []Comp
 				for _, a := range tr.W.flatten(content) {
-					out = append(out, Comp{"L." + id + "." + joinPath(prefix, a.Path), a.Sort})
+					out = append(out, Comp{"L." + id + "." + joinPath(prefix, a.Path), a.Sort, false})
 				}
 				return out, true
 			}
@@ -515,10 +533,10 @@ func (tr *FnCtx) havocLoop(li *loopInfo, st *State) {
 			case *ssa.MakeClosure, *ssa.MakeInterface:
 				addC(compPub)
 			case *ssa.Range:
-				addC(Comp{"$seen." + x.Name(), "(Array Int Bool)"})
+				addC(Comp{"$seen." + x.Name(), "(Array Int Bool)", false})
 			case *ssa.Next:
 				if rg, ok := x.Iter.(*ssa.Range); ok {
-					addC(Comp{"$seen." + rg.Name(), "(Array Int Bool)"})
+					addC(Comp{"$seen." + rg.Name(), "(Array Int Bool)", false})
 				}
 			case *ssa.Defer:
 				tr.note("defer inside a loop is not supported")
@@ -675,7 +693,8 @@ func (tr *FnCtx) lockAccess(st *State, p *Val, write bool, in ssa.Instruction) {
 			return
 		}
 		a := p.A[0]
-		exempt := "(and (< " + a + " 0) (>= (elemB " + a + ") " + tr.allocEntry + "))"
+		// cells at non-negative addresses are variables (e.g. captured locals), not slice elements
+		exempt := "(or (>= " + a + " 0) (>= (elemB " + a + ") " + tr.allocEntry + "))"
 		desc = fmt.Sprintf("%s of a %s cell", rw(write), shortType(tk))
 		if write {
 			cond = or(eq(held, "2"), exempt)
@@ -979,7 +998,7 @@ func (tr *FnCtx) applyContract(st *State, f *ssa.Function, spec *FuncSpec, metho
 		}
 		for i, fv := range f.FreeVars {
 			if i < len(bindings) {
-				vars[fv.Name()] = &Val{T: fv.Type(), A: bindings[i].A, Loc: bindings[i].Loc, Clos: bindings[i].Clos}
+				vars[fv.Name()] = &Val{T: fv.Type(), A: bindings[i].A, Loc: bindings[i].Loc, Clos: bindings[i].Clos, AutoDeref: f.Parent() != nil && !strings.HasSuffix(f.Name(), "$bound")}
 			}
 		}
 		resNames = resultNames(f)
@@ -1037,12 +1056,10 @@ func (tr *FnCtx) applyContract(st *State, f *ssa.Function, spec *FuncSpec, metho
 		tr.havocAll(st)
 		tr.note("contract of " + calleeName + " has no modifies clause: everything havocked at the call")
 	} else {
-		tab := map[string]*modEntry{}
-		func() {
-			saved := tr.specErrors
-			tab = tr.modTable(spec, pkg)
-			_ = saved
-		}()
+		a0 := tr.cur(st, compAlloc)
+		na := tr.havocComp(st, compAlloc)
+		tr.assume("(>= " + na + " " + a0 + ")")
+		tab := tr.modTable(spec, pkg)
 		var ks []string
 		for kk := range tab {
 			ks = append(ks, kk)
@@ -1050,22 +1067,33 @@ func (tr *FnCtx) applyContract(st *State, f *ssa.Function, spec *FuncSpec, metho
 		sort.Strings(ks)
 		for _, kk := range ks {
 			me := tab[kk]
-			c := Comp{kk, tr.comps[kk]}
+			c := Comp{kk, tr.comps[kk], false}
+			if kk == "$alloc" {
+				continue
+			}
 			if me.whole || !strings.HasPrefix(c.Sort, "(Array") {
 				tr.havocComp(st, c)
 				continue
 			}
 			t := tr.cur(st, c)
 			es := elemSort(c.Sort)
+			if kk == "$alloc" {
+				continue
+			}
 			for _, oe := range me.objs {
 				o := env.eval(oe)
-				t = store(t, o.A[0], tr.freshConst("hv", es))
+				fv := tr.freshConst("hv", es)
+				t = store(t, o.A[0], fv)
+				if tr.compRef[kk] {
+					if strings.HasPrefix(es, "(Array") {
+						tr.assume(fmt.Sprintf("(forall ((k Int)) (! (and (<= 0 (select %s k)) (< (select %s k) %s)) :pattern ((select %s k))))", fv, fv, na, fv))
+					} else {
+						tr.assume("(isold " + fv + " " + na + ")")
+					}
+				}
 			}
 			tr.set(st, c, t)
 		}
-		a := tr.cur(st, compAlloc)
-		na := tr.havocComp(st, compAlloc)
-		tr.assume("(>= " + na + " " + a + ")")
 	}
 	// results
 	res := &Val{T: resT}
